@@ -203,3 +203,24 @@ func init() {
 		}
 	}
 }
+
+func init() {
+	// (solana.Message).IsVersioned: `return m.version != MessageVersionLegacy` (exact model reading the
+	// unexported field; solana-go is not a source root of the C03 handler obligations because its
+	// Signature.String would enumerate symbolic signatures in error texts).
+	const iv = "(github.com/gagliardetto/solana-go.Message).IsVersioned"
+	if externals[iv] == nil {
+		externals[iv] = func(fr *frame, args []value) value {
+			stub("solana.Message.IsVersioned (model: exact, version field != legacy)")
+			m, _ := args[0].(structure)
+			if st, ok := fr.fn.Signature.Recv().Type().Underlying().(*types.Struct); ok && m != nil {
+				for i := 0; i < st.NumFields(); i++ {
+					if st.Field(i).Name() == "version" {
+						return !truth(equalsV(st.Field(i).Type(), m[i], zero(st.Field(i).Type())))
+					}
+				}
+			}
+			panic(pathAbort{"unsupported", "solana.Message.IsVersioned: field version not found"})
+		}
+	}
+}
